@@ -4,29 +4,29 @@ package main
 
 import (
 	"fmt"
-	"os"
 	"go/constant"
 	"go/types"
 	"math/big"
+	"os"
 	"strings"
 )
 
 type SpecEnv struct {
-	c        *Ctx
-	st       *State
-	vars     map[string]T
-	pkg      string
-	old      *MemSnap // state that old(...) refers to
-	snapOnly *MemSnap // evaluate everything in this snapshot (st may be nil)
-	inOld    bool
-	fr       *Frame
-	bound    map[string]T
-	nested   bool
-	internal bool // clause evaluated at an inner program point (loop invariant, before/after): names denote current values
-	pol      int // +1: formula is a proof goal, -1: formula is assumed, 0: unknown polarity
+	c            *Ctx
+	st           *State
+	vars         map[string]T
+	pkg          string
+	old          *MemSnap // state that old(...) refers to
+	snapOnly     *MemSnap // evaluate everything in this snapshot (st may be nil)
+	inOld        bool
+	fr           *Frame
+	bound        map[string]T
+	nested       bool
+	internal     bool // clause evaluated at an inner program point (loop invariant, before/after): names denote current values
+	pol          int  // +1: formula is a proof goal, -1: formula is assumed, 0: unknown polarity
 	pendingFacts []string
-	facts    []string // well-formedness facts about values loaded from memory while evaluating
-	noFacts  bool
+	facts        []string // well-formedness facts about values loaded from memory while evaluating
+	noFacts      bool
 }
 
 // note records the well-typedness of a value just loaded from memory (true in every reachable state).
